@@ -10,6 +10,7 @@
   PANIC outcome (that is what the "never panics" obligations look for);
 * unknown callee / unsupported construct => Inconclusive (never "holds").
 """
+import os
 import re
 import z3
 
@@ -18,6 +19,23 @@ from mirparse import MirUnsupported, Program, parse_rvalue, split_top
 
 class Inconclusive(Exception):
     pass
+
+
+def _cvc5(smt2, timeout_s=60):
+    import os
+    import subprocess
+    import tempfile
+    with tempfile.NamedTemporaryFile("w", suffix=".smt2", delete=False) as fh:
+        fh.write("(set-logic ALL)\n(set-option :strings-exp true)\n" + smt2.replace("(check-sat)", "") + "\n(check-sat)\n")
+        p = fh.name
+    try:
+        r = subprocess.run(["cvc5", "--lang", "smt2", f"--tlimit={timeout_s * 1000}", p], capture_output=True, text=True, timeout=timeout_s + 10)
+        first = (r.stdout.strip().split("\n") or [""])[0].strip()
+        return first if "(error" not in r.stdout + r.stderr else "n/a"
+    except Exception:
+        return "n/a"
+    finally:
+        os.unlink(p)
 
 
 class Panic(Exception):
@@ -153,6 +171,8 @@ class SourceInfo:
         self.root = src_root
         self.features = set(features)
         self.debug_assertions = debug_assertions
+        self.struct_defs = {}
+        self.enum_defs = {}
         self.structs = {}  # name -> [field names] ; tuple structs -> ["0","1",..]
         self.enums = {}  # name -> [(variant, [field names])]
         self.files = {}
@@ -163,6 +183,7 @@ class SourceInfo:
                     txt = open(p).read()
                     rel = os.path.relpath(p, os.path.dirname(src_root))
                     self.files[rel] = txt.split("\n")
+                    self._cur = rel
                     self._scan(txt)
 
     def cfg_ok(self, attr):
@@ -210,12 +231,14 @@ class SourceInfo:
             name = m.group(1)
             i = m.end() - 1
             j = _match_brace(txt2, i)
+            self.struct_defs.setdefault(name, []).append((self._cur, self._fields(txt2[i + 1:j])))
             self.structs.setdefault(name, self._fields(txt2[i + 1:j]))
         for m in re.finditer(r"\bstruct\s+([A-Z][A-Za-z0-9_]*)\s*(<[^{;(]*>)?\s*\(", txt2):
             name = m.group(1)
             i = m.end() - 1
             j = _match_brace(txt2, i, "(", ")")
             n = len([x for x in split_top(txt2[i + 1:j]) if x.strip()])
+            self.struct_defs.setdefault(name, []).append((self._cur, [str(k) for k in range(n)]))
             self.structs.setdefault(name, [str(k) for k in range(n)])
         for m in re.finditer(r"\benum\s+([A-Z][A-Za-z0-9_]*)\s*(<[^{;]*>)?\s*(where[^{;]*)?\{", txt2):
             name = m.group(1)
@@ -238,7 +261,43 @@ class SourceInfo:
                         vs.append((mm.group(1), [str(k) for k in range(n)]))
                     else:
                         vs.append((mm.group(1), []))
+            self.enum_defs.setdefault(name, []).append((self._cur, vs))
             self.enums.setdefault(name, vs)
+
+    def lookup_enum(self, name, variant, fieldnames, segs):
+        """variants of the enum `name` that has `variant` (and these field names); several enums of
+        the same name exist in different modules: the path segments of the MIR aggregate break ties"""
+        defs = self.enum_defs.get(name, [])
+        c = [(f, vs) for f, vs in defs if any(v == variant and (not fieldnames or set(fieldnames) <= set(fn)) for v, fn in vs)]
+        if len(c) > 1:
+            def score(f):
+                parts = f[:-3].split("/")
+                return sum(1 for x in segs if x in parts)
+            best = max(score(f) for f, _ in c)
+            c = [(f, vs) for f, vs in c if score(f) == best]
+        if len(c) == 1:
+            return c[0][1]
+        if not c:
+            return None
+        # identical definitions are fine
+        if all(vs == c[0][1] for _f, vs in c):
+            return c[0][1]
+        raise Inconclusive(f"ambiguous enum {name}::{variant} in {[f for f, _ in c]}")
+
+    def lookup_struct(self, name, fieldnames, segs):
+        defs = self.struct_defs.get(name, [])
+        c = [(f, fs) for f, fs in defs if not fieldnames or set(fieldnames) <= set(fs)]
+        if len(c) > 1:
+            def score(f):
+                parts = f[:-3].split("/")
+                return sum(1 for x in segs if x in parts)
+            best = max(score(f) for f, _ in c)
+            c = [(f, fs) for f, fs in c if score(f) == best]
+        if not c:
+            return None
+        if len(c) == 1 or all(fs == c[0][1] for _f, fs in c):
+            return c[0][1]
+        raise Inconclusive(f"ambiguous struct {name} in {[f for f, _ in c]}")
 
     def impl_header(self, file, line):
         """source text of the impl header starting at file:line (1-based), up to '{'"""
@@ -432,10 +491,25 @@ class Ctx:
         self.queries += 1
         self.solver.push()
         self.solver.add(c)
+        import time as _t
+        _t0 = _t.time()
         r = self.solver.check()
+        if _t.time() - _t0 > 3 and os.environ.get("MIRSYM_DEBUG"):
+            print(f"[slow query {(_t.time() - _t0):.1f}s -> {r}] {str(c)[:300]}", flush=True)
+        smt2 = self.solver.to_smt2() if r == z3.unknown else None
         self.solver.pop()
         if r == z3.unknown:
-            raise Inconclusive("solver returned unknown on a branch feasibility query")
+            # z3's sequence solver gives up on some string queries: ask cvc5, then a fresh z3
+            r2 = _cvc5(smt2)
+            if r2 in ("sat", "unsat"):
+                return r2 == "sat"
+            s2 = z3.Solver()
+            s2.set("timeout", 120000)
+            s2.add(*self.pc)
+            s2.add(c)
+            r = s2.check()
+            if r == z3.unknown:
+                raise Inconclusive("solver returned unknown on a branch feasibility query (z3 and cvc5)")
         return r == z3.sat
 
     def choose(self, options, what=""):
@@ -495,6 +569,8 @@ class Ctx:
                 return v.f[k]
             if hasattr(v, "mir_field"):
                 return v.mir_field(k)
+            if is_z3(v) and k == 0:
+                return v  # scalar newtype (http::Version, Token, ...): transparent
             raise Inconclusive(f"field projection .{k} on {type(v).__name__} {v!r}")
         if kind == "downcast":
             if isinstance(v, Enum):
@@ -688,6 +764,8 @@ class Ctx:
             v = self.load(self.eval_place_ref(frame, rv[1]))
             if isinstance(v, Enum):
                 return z3.BitVecVal(v.idx, 64)
+            if z3.is_bv(v):
+                return z3.ZeroExt(64 - v.size(), v) if v.size() < 64 else v
             if hasattr(v, "mir_discriminant"):
                 return v.mir_discriminant(self)
             raise Inconclusive(f"discriminant of {v!r}")
@@ -822,8 +900,8 @@ class Ctx:
             ty = segs[-2]
             if ty in STD_ENUMS and last in STD_ENUMS[ty]:
                 return Enum(ty, last, STD_ENUMS[ty].index(last), vals)
-            if ty in self.src.enums:
-                vs = self.src.enums[ty]
+            vs = self.src.lookup_enum(ty, last, names, segs[:-2]) if ty in self.src.enum_defs else None
+            if vs is not None:
                 for i, (vn, fns) in enumerate(vs):
                     if vn == last:
                         if names:
@@ -836,8 +914,8 @@ class Ctx:
         mm = self.models.get("adt:" + last) if self.models else None
         if mm is not None:
             return mm(self, vals, names)
-        if last in self.src.structs:
-            fns = self.src.structs[last]
+        fns = self.src.lookup_struct(last, names, segs[:-1]) if last in self.src.struct_defs else None
+        if fns is not None:
             if names:
                 order = {n: i2 for i2, n in enumerate(fns)}
                 arr = [None] * len(fns)
@@ -856,18 +934,22 @@ class Ctx:
     def call(self, callee, args, caller=None):
         key = normalize_callee(callee)
         m = self.models.get(key)
-        if m is None and key.startswith("<"):
-            # `<T as Trait>::m`: fall back to `Trait::m`, then `T::m`
+        if m is not None:
+            self.trace.append("model " + key)
+            return m(self, args, callee)
+        # hyperdriver's own function?
+        f = self.resolve(callee, args, caller)
+        if f is not None:
+            return self.exec_fn(f, args)
+        if key.startswith("<"):
+            # `<T as Trait>::m`: fall back to the trait-level / type-level model
             mm = re.fullmatch(r"<(.*) as (.*)>::(.*)", key)
             if mm:
                 m = self.models.get(f"{mm.group(2)}::{mm.group(3)}") or self.models.get(f"{mm.group(1)}::{mm.group(3)}")
         if m is not None:
             self.trace.append("model " + key)
             return m(self, args, callee)
-        f = self.resolve(callee, args, caller)
-        if f is None:
-            raise Inconclusive(f"unknown callee `{callee}` (normalised `{key}`)")
-        return self.exec_fn(f, args)
+        raise Inconclusive(f"unknown callee `{callee}` (normalised `{key}`)")
 
     def resolve(self, callee, args, caller=None):
         c = callee.strip()
